@@ -26,7 +26,10 @@ Definition ip_check_sound_for (chk : list N -> option (fam * N * list N)) : Prop
   forall plain f L src, chk plain = Some (f, L, src) ->
     L = declared_len f plain /\ hdr_min f <= L /\ L <= blen plain.
 
-Record ssn := { n_peer : N; n_idx : N; n_key : N; n_age : N; n_seen : sstate }.
+(* role: 0 = the session before the current one, 1 = current, 2 = offered by the device as responder and not
+   yet used by the remote.  A peer has at most one of each; a new handshake retires the oldest, the first
+   message under an offered session makes it current, a restart of the interface ends them all. *)
+Record ssn := { n_peer : N; n_idx : N; n_key : N; n_age : N; n_seen : sstate; n_role : N }.
 
 Fixpoint list_eqb (a b : list N) : bool :=
   match a, b with
@@ -51,12 +54,34 @@ Definition permitted_write (tbl : list entry) (P : N) (plain : list N) : option 
     if (40 <=? L) && (L <=? n) && lpm_okb tbl V6 (addrn plain 8 16 0) P then Some (firstn (N.to_nat L) plain) else None
   else None.
 
-(* sessions newest first; a peer retains its two newest *)
-Fixpoint keep_newest (p : N) (l : list ssn) (seen_one : bool) : list ssn :=
+Definition with_role (s : ssn) (r : N) : ssn :=
+  {| n_peer := n_peer s; n_idx := n_idx s; n_key := n_key s; n_age := n_age s; n_seen := n_seen s; n_role := r |}.
+
+(* sessions of peer p after a completed handshake: current becomes previous, everything else of p goes *)
+Fixpoint retire_confirmed (p : N) (l : list ssn) : list ssn :=
   match l with
   | [] => []
-  | s :: t => if n_peer s =? p then (if seen_one then keep_newest p t true else s :: keep_newest p t true)
-              else s :: keep_newest p t seen_one
+  | s :: t => if n_peer s =? p
+              then (if n_role s =? 1 then with_role s 0 :: retire_confirmed p t else retire_confirmed p t)
+              else s :: retire_confirmed p t
+  end.
+
+(* the first message under the offered session idx of p: it becomes current, current becomes previous, previous goes *)
+Fixpoint promote (p idx : N) (l : list ssn) : list ssn :=
+  match l with
+  | [] => []
+  | s :: t => if n_peer s =? p
+              then (if n_idx s =? idx then with_role s 1 :: promote p idx t
+                    else if n_role s =? 1 then with_role s 0 :: promote p idx t
+                    else promote p idx t)
+              else s :: promote p idx t
+  end.
+
+(* after the device answered a handshake that is not yet confirmed: only the current session of p stays *)
+Fixpoint retire_offered (p : N) (l : list ssn) : list ssn :=
+  match l with
+  | [] => []
+  | s :: t => if (n_peer s =? p) && negb (n_role s =? 1) then retire_offered p t else s :: retire_offered p t
   end.
 
 Fixpoint find_ssn (l : list ssn) (idx : N) : option ssn :=
@@ -70,7 +95,8 @@ Fixpoint mark (l : list ssn) (idx ctr : N) : list ssn :=
   | [] => []
   | s :: t => if n_idx s =? idx
               then {| n_peer := n_peer s; n_idx := n_idx s; n_key := n_key s; n_age := n_age s;
-                      n_seen := {| seen := ctr :: seen (n_seen s); mx := N.max (mx (n_seen s)) ctr |} |} :: t
+                      n_seen := {| seen := ctr :: seen (n_seen s); mx := N.max (mx (n_seen s)) ctr |};
+                      n_role := n_role s |} :: t
               else s :: mark t idx ctr
   end.
 
@@ -83,7 +109,9 @@ Definition spec_dgram (tbl : list entry) (l : list ssn) (d : dgram) : list ssn *
       | Some s =>
           if (n_age s <=? RejectAfterTime) && negb tampered && (key =? n_key s) &&
              accept (n_seen s) ctr RejectAfterMessages
-          then (mark l idx ctr,
+          then ((if n_role s =? 2
+                 then promote (n_peer s) idx (mark l idx ctr)
+                 else mark l idx ctr),
                 match permitted_write tbl (n_peer s) plain with
                 | Some w => Some (n_peer s, w)
                 | None => None
@@ -105,10 +133,14 @@ Definition spec_event (tbl : list entry) (l : list ssn) (ev : event) : list ssn 
   match ev with
   | Handshake p idx key =>
       ({| n_peer := p; n_idx := idx; n_key := key; n_age := 0;
-          n_seen := {| seen := [0]; mx := 0 |} |} :: keep_newest p l false, [])
+          n_seen := {| seen := [0]; mx := 0 |}; n_role := 1 |} :: retire_confirmed p l, [])
+  | HandshakeUnconf p idx key =>
+      ({| n_peer := p; n_idx := idx; n_key := key; n_age := 0; n_seen := sempty; n_role := 2 |} :: retire_offered p l, [])
+  | Restart => ([], [])
   | Age p ns =>
       (map (fun s => if n_peer s =? p
-                     then {| n_peer := n_peer s; n_idx := n_idx s; n_key := n_key s; n_age := n_age s + ns; n_seen := n_seen s |}
+                     then {| n_peer := n_peer s; n_idx := n_idx s; n_key := n_key s; n_age := n_age s + ns; n_seen := n_seen s;
+                             n_role := n_role s |}
                      else s) l, [])
   | Dgrams ds => spec_dgrams tbl l ds
   end.
